@@ -188,6 +188,27 @@ def _records_table(R, table, flavour, tier, only, tindex=0):
                             R.mismatch("record-in-wrong-pixel:integer-chromosome-ids", innerI, f"differences (row, pixel)={bad}")
                     except Exception as ex:
                         R.mismatch("valid-chunk-raises:" + type(ex).__name__, innerI, f"{ex!s:.300}")
+                # -- the same chunk under other row labels (all equal, reversed); records told apart by their first position column
+                for lab in ("repeated", "reversed"):
+                    innerL = {"table": tname, "names": flavour, "opt": opt, "chunk": "all-valid", "labels": lab}
+                    if sided or not (only is None or only == innerL):
+                        continue
+                    R.c["transitions"] += 1
+                    R.c["evaluations"] += 1
+                    R.c["nontrivial"] += 1
+                    R.classes["chunk:labels-" + lab] += 1
+                    recs = [allrecs[k] for k in okidx]
+                    fr = _frame(recs, tags=False)
+                    fr["tag"] = np.arange(len(fr))
+                    fr = fr.set_axis([4] * len(fr)) if lab == "repeated" else fr.set_axis(list(range(len(fr), 0, -1)))
+                    try:
+                        out = san(fr)
+                        gotL = sorted((int(t), int(b1), int(b2)) for t, b1, b2 in zip(out["tag"], out["bin1_id"], out["bin2_id"]))
+                        wantL = sorted((pos, exp[k][1], exp[k][2]) for pos, k in enumerate(okidx) if exp[k][0] == "kept")
+                        if gotL != wantL:
+                            R.mismatch("records-lost-or-misplaced-under-other-row-labels", innerL, f"got {len(gotL)} records, want {len(wantL)}; first differences {sorted(set(gotL) ^ set(wantL))[:6]}")
+                    except Exception as ex:
+                        R.mismatch("valid-chunk-raises:" + type(ex).__name__, innerL, f"{ex!s:.300}")
                 # -- every valid record alone (thorough, small tables)
                 if tier == "thorough" and n <= 4 and not sided:
                     for k in okidx:
@@ -362,6 +383,25 @@ def _pixels(R, n, only):
                                 R.mismatch("lower-pixel-not-dropped", {**inner, "pix": list(p)}, f"{got[q]}")
                     except Exception as ex:
                         R.mismatch("valid-chunk-raises:" + type(ex).__name__, inner, f"{ex!s:.300}")
+                # the same chunk under other ROW LABELS (all equal - a concat without ignore_index -, reversed): labels are the caller's
+                # business; the records are told apart by their count value
+                for lab in ("repeated", "reversed"):
+                    innerL = {"n": n, "opt": opt, "chunk": "all-valid", "labels": lab}
+                    if not (only is None or only == innerL) or sided:
+                        continue
+                    R.add("transitions")
+                    R.ev(1, 1)
+                    R.cls("pix:labels-" + lab)
+                    try:
+                        fr = frame(ok)
+                        fr = fr.set_axis([4] * len(fr)) if lab == "repeated" else fr.set_axis(list(range(len(fr), 0, -1)))
+                        out = val(san(fr))
+                        gotL = sorted((int(c), int(a), int(b)) for c, a, b in zip(out["count"], out["bin1_id"], out["bin2_id"]))
+                        wantL = sorted((q + 1, exp(p)[1], exp(p)[2]) for q, p in enumerate(ok) if exp(p)[0] == "kept")
+                        if gotL != wantL:
+                            R.mismatch("pixel-records-lost-or-misplaced-under-other-row-labels", innerL, f"got {len(gotL)} records, want {len(wantL)}; first differences {sorted(set(gotL) ^ set(wantL))[:6]}")
+                    except Exception as ex:
+                        R.mismatch("valid-chunk-raises:" + type(ex).__name__, innerL, f"{ex!s:.300}")
                 for p in allp:
                     e = exp(p)
                     if e[0] not in ("refused", "refused-lower"):
